@@ -940,6 +940,58 @@ def unit_ylm_grad_defined(ctx):
         ctx.assume("bounded only: %s output definedness is decided by enumeration on the probe inputs; the symbolic scheme did not decide it" % fn)
 
 
+def unit_c_accumulators_cleared(rel, fn, out, requires=None):
+    """Work buffers that outlive a call (the thread-local `ectr` blocks of the SDMX shell evaluators are allocated once per thread and handed to the contraction kernel
+    for every shell and every grid block): each element the routine ACCUMULATES into must have been overwritten by the same call before — for all sizes.  The element
+    set of every `+=` store (its own loop ranges) is covered by the routine's overwriting stores (outcover.coverage: instantiation schemes, refutations confirmed by exact
+    enumeration on the solver's input)."""
+    def run(ctx):
+        from cvc.csym import CUnsupported
+        from contracts import c10, outcover
+        fq = ["lib/%s:%s" % (rel, fn)]
+        try:
+            sy, args = c10.summarise(rel, fn)
+        except CUnsupported as e:
+            ctx.undecided("%s summarised" % fn, str(e)[:200], fq)
+            return
+        ws = [e for e in sy.events if e.kind == "w" and e.arr.name == out]
+        sets = [e for e in ws if e.op == "="]
+        accs = oblig._dedupe_l([e for e in ws if e.op != "="])
+        ctx.holds("%s accumulates into %s and has overwriting stores into it" % (fn, out), len(sets) > 0 and len(accs) > 0, "%d / %d" % (len(sets), len(accs)), fq)
+        hyps = list(c10.nonneg_hyps(args)) + (requires(args) if requires else [])
+        for k, a in enumerate(accs):
+            prior = [s_ for s_ in sets if s_.seq < a.seq]
+            targets = [(q[0], q[1], q[2]) for q in a.qvars]
+            H = hyps + [tm.lift(g) for g in a.guards]
+            outcover.record(ctx, "%s: every element of %s[%s] that is accumulated into was overwritten by this call first (all sizes)" % (fn, out, tm.show(a.idx, 50)),
+                            prior, targets, tm.lift(a.idx), H, fq, replay=replay_accumulators(rel, fn))
+    return run
+
+
+def replay_accumulators(rel, fn):
+    def replay(wit):
+        """Native: call the kernel on a NaN-filled work buffer with the witness sizes; an output element that is still NaN afterwards was accumulated into without being cleared."""
+        import ctypes
+        from pyvc import native
+        w = wit or {}
+        nctr, ngrids, nprim = int(w.get("nctr", 2)), int(w.get("ngrids", 3)), max(1, int(w.get("nprim", 2)))
+        if not (0 < nctr <= 40 and 0 < ngrids <= 56 and nprim <= 40):
+            return {"reproduced": None, "note": "witness sizes outside the replayable range"}
+        lib = ctypes.CDLL(native.build_libs() + "/libmcider.so")
+        f = getattr(lib, fn)
+        BLK, NPRIMAX = 56, 40
+        buf = np.full(2 * NPRIMAX * BLK + 4 * BLK, np.nan)
+        coord = np.ascontiguousarray(np.random.RandomState(1).rand(3 * BLK))
+        alpha = np.ascontiguousarray(0.5 + np.random.RandomState(2).rand(nprim))
+        coeff = np.ascontiguousarray(np.random.RandomState(3).rand(nctr * nprim))
+        f.restype = ctypes.c_int
+        f(buf.ctypes.data_as(ctypes.c_void_p), coord.ctypes.data_as(ctypes.c_void_p), alpha.ctypes.data_as(ctypes.c_void_p), coeff.ctypes.data_as(ctypes.c_void_p),
+          ctypes.c_int(0), ctypes.c_int(nprim), ctypes.c_int(nctr), ctypes.c_size_t(ngrids), ctypes.c_double(1.0), ctypes.c_double(0.7), ctypes.c_double(1.1))
+        bad = [int(k * BLK + i) for k in range(nctr) for i in range(ngrids) if np.isnan(buf[k * BLK + i])]
+        return {"reproduced": bool(bad), "nctr": nctr, "ngrids": ngrids, "elements read downstream that still hold the previous contents": bad[:8]}
+    return replay
+
+
 def units():
     u = [("frames/settings", unit_frames_settings), ("frames/maps", unit_frames_maps), ("frames/sdmx-plan", unit_frames_sdmx_plan)]
     for version, level in (("ij", "MGGA"), ("i", "GGA"), ("j", "MGGA"), ("k", "MGGA")):
@@ -951,6 +1003,9 @@ def units():
                          ("mod_cider/fast_sdmx.c", "SDMXcontract_ao_to_bas_grid", "vbas")):
         u.append(("c-defines-output/" + fn, unit_c_defines_output(rel, fn, out)))
     u.append(("c-defines-output/SDMXylm_grad", unit_ylm_grad_defined))
+    for fn in ("SDMXcontract_smooth0", "SDMXcontract_rsq0", "SDMXcontract_smooth1", "SDMXcontract_rsq1"):
+        # the callers hand over blocks of at most BLKSIZE = 56 grid points (bgrids = MIN(ngrids - ip, BLKSIZE)) and at most NPRIMAX = 40 contractions / primitives
+        u.append(("c-accumulators-cleared/" + fn, unit_c_accumulators_cleared("mod_cider/fast_sdmx.c", fn, "ectr", lambda a: [tm.mk_le(a["ngrids"], tm.lift(56)), tm.mk_le(a["nctr"], tm.lift(40)), tm.mk_le(a["nprim"], tm.lift(40))])))
     # EXXSphGenerator: a stacked call equals the separate calls, slot by slot, on a generator that has been used before (contract shared with C01)
     from contracts import c01
     for n0, n1 in ((2, 0), (1, 1)):
